@@ -400,7 +400,7 @@ CHECKS["C17"]["rule"] = ("Stage intervals: rtr_init and rtr_mgr_init are called 
                          + CHECKS["C17"]["rule"])
 # C18 (b): allocation failures during synchronisations
 CHECKS["C18"]["stages"].append(_conv_stage((4, 40), (40, 80), ["--mode", "alloc"], procs_q=8))
-CHECKS["C18"]["stages"][-1]["quick"]["args"] = ["--maxk", "1200"]
+CHECKS["C18"]["stages"][-1]["quick"]["args"] = ["--maxk", "600"]
 CHECKS["C18"]["engine"] = "rapidcheck + per-fault re-execution + convsim"
 CHECKS["C18"]["rule"] += (" Stage conv: for generated conversations (see C03) run 0 counts the allocations the library makes while synchronising (temporary PDU stores incl. >100 PDU payloads, shadow tables, hash-table growth, undo paths); "
                           "a conversation that ends converged must leave the ledger empty; then every allocation index (every k for N <= 1500, else 1500 evenly spaced) is failed once: no crash, and all conversation oracles (either-or of C03, callbacks, convergence) must still hold.")
